@@ -248,6 +248,26 @@ test-group = 'g1'
         sc.timeout_s = 60
         sc.meta = {"tests": tests, "retries": 0, "threads": 2, "heavy": False, "group_m": 4, "group_r": None, "grace": GRACE, "delay_ms": 0, "backoff": "fixed", "run_ignored": "default", "extra": False, "store_s": False, "store_f": True}
         return sc
+    if k in (8, 9):
+        # fixed scenarios (corpus): --no-capture forces serial execution whatever test-threads says (4 here) — also together with the
+        # libtest-json message format (which selects its own capture mode when output is captured)
+        w = lambda ms_: {"kind": "pass", "acts": [f"work:{ms_}", "exit:0"], "out": None, "err": None, "expect": "P"}
+        tests = [{"bin": b, "pkg": pk, "name": f"nc_{i}", "ignored": False, "attempts": [w(200)]} for i, (b, pk) in enumerate([("t_one", "alpha"), ("t_one", "alpha"), ("t_two", "alpha"), ("t_three", "beta")])]
+        for t in tests: sc.test(t["bin"], t["name"], {"1": t["attempts"][0]["acts"]})
+        sc.config = '''[profile.default]
+retries = 0
+test-threads = 4
+fail-fast = false
+status-level = "all"
+final-status-level = "all"
+[profile.default.junit]
+path = "@JUNIT@"
+'''
+        sc.cli = ["--no-capture"] + (["--message-format", "libtest-json"] if k == 9 else [])
+        sc.env = {"NEXTEST_EXPERIMENTAL_LIBTEST_JSON": "1"} if k == 9 else {}
+        sc.timeout_s = 60
+        sc.meta = {"tests": tests, "retries": 0, "threads": 1, "heavy": False, "group_m": None, "group_r": None, "grace": GRACE, "delay_ms": 0, "backoff": "fixed", "run_ignored": "default", "extra": False, "store_s": False, "store_f": True, "no_capture": True}
+        return sc
     retries = rng.choice([0, 0, 1, 2])
     threads = rng.choice([1, 2, 4])
     delay_ms = rng.choice([0, 0, 150]) if retries else 0
@@ -603,6 +623,8 @@ def mon_output(sc, r):
                 if int(mc.group(1)) != len(data) or int(mc.group(2), 16) != xxh64.xxh64(data):
                     out.append(viol(sc, r, "capture", f"test {t['name']!r} attempt {f[0]}: combined capture is {mc.group(1)} bytes (xxh64 {mc.group(2)}), the process wrote {len(data)} bytes (stdout then stderr; xxh64 {xxh64.xxh64(data):016x})"))
                 continue
+            if sc.meta.get("no_capture") and cap == "split:none:none":
+                continue   # --no-capture: the test writes to nextest's own terminal, nothing is captured (and the property speaks of captured output)
             m = re.match(r"split:(\d+):([0-9a-f]+):(\d+):([0-9a-f]+)", cap)
             if not m:
                 out.append(viol(sc, r, "capture", f"test {t['name']!r}: unexpected capture record {cap}")); continue
@@ -805,7 +827,7 @@ if __name__ == "__main__":
             for v in mon(sc, r): print("   ", mon.__name__, v["what"][:300])
 
 
-def check(monitors, seed, tier, n_quick=10, n_thorough=60):
+def check(monitors, seed, tier, n_quick=12, n_thorough=60):
     """Run the family and the given monitors; returns a dict to be merged into a property's result."""
     res, broken = run_family(seed, tier, n_quick, n_thorough)
     violations = []; notes = []
